@@ -222,8 +222,10 @@ func issArgsInDomain(a issArgs) bool {
 }
 
 // pset v0
-func checkC13IssV0(t *Toks) string {
-	c := readV0Case(t)
+func checkC13IssV0(t *Toks) string { return issV0StepCheck(readV0Case(t)) }
+
+// one call on a v0 updater: makes the call and states the clauses of the property on its result
+func issV0StepCheck(c *v0Case) string {
 	tx := c.p.UnsignedTx
 	before := len(tx.Outputs)
 	target := -1
@@ -335,8 +337,10 @@ func issHexDecode(s string) ([]byte, error) {
 }
 
 // psetv2
-func checkC13IssV2(t *Toks) string {
-	c := readV2Case(t)
+func checkC13IssV2(t *Toks) string { return issV2StepCheck(readV2Case(t)) }
+
+// one call on a psetv2 updater
+func issV2StepCheck(c *v2Case) string {
 	if c.op == "add" && !issArgsInDomain(c.args) {
 		return "SKIP contract-outside-modelled-alphabet"
 	}
@@ -537,7 +541,143 @@ func issMismatch(got, want *transaction.TxIssuance) string {
 	return ""
 }
 
+// ---------- histories: several calls on one updater ----------
+
+// the three ids an issuing input derives (asset, token, confidential token); nil if it derives none
+func issDerivedIDs(hash []byte, index uint32, nonce, entropyField []byte) [][]byte {
+	var entropy []byte
+	if len(nonce) > 0 && !bytes.Equal(nonce, make([]byte, 32)) { // reissuance: the field is the entropy
+		entropy = entropyField
+	} else if len(hash) == 32 && len(entropyField) == 32 { // new issuance: the field is the contract hash
+		entropy = elEntropy(hash, index, entropyField)
+	}
+	if len(entropy) != 32 {
+		return nil
+	}
+	return [][]byte{elAsset(entropy), elToken(entropy, false), elToken(entropy, true)}
+}
+
+func issStepSuffix(r string, k int) string { return fmt.Sprintf("%s/step%d", r, k+1) }
+
+// after every step of a history: an issuance attached earlier is still there unchanged, and every
+// output a successful AddIssuance/AddReissuance added is still paid by the ids some input derives
+func checkC13IssH0(t *Toks) string {
+	p, steps := readV0History(t)
+	tx := p.UnsignedTx
+	var paid []int
+	for k, c := range steps {
+		beforeIss := make([]string, len(tx.Inputs))
+		for i, in := range tx.Inputs {
+			beforeIss[i] = issDump(in.Issuance)
+		}
+		nout := len(tx.Outputs)
+		r := issV0StepCheck(c)
+		if strings.HasPrefix(r, "FAIL") {
+			return issStepSuffix(r, k)
+		}
+		if strings.HasPrefix(r, "SKIP") {
+			return r
+		}
+		for i := range beforeIss {
+			if beforeIss[i] != "0" && (i >= len(tx.Inputs) || issDump(tx.Inputs[i].Issuance) != beforeIss[i]) {
+				return issStepSuffix(fail("pset.history.issuance-overwritten", "by-"+c.op), k)
+			}
+		}
+		if r == "OK" {
+			for j := nout; j < len(tx.Outputs); j++ {
+				paid = append(paid, j)
+			}
+		}
+		for _, j := range paid {
+			if j >= len(tx.Outputs) {
+				return issStepSuffix(fail("pset.history.output-removed", "by-"+c.op), k)
+			}
+			found := false
+			for _, in := range tx.Inputs {
+				if in.Issuance == nil {
+					continue
+				}
+				for _, id := range issDerivedIDs(in.Hash, in.Index, in.Issuance.AssetBlindingNonce, in.Issuance.AssetEntropy) {
+					if bytes.Equal(tx.Outputs[j].Asset, append([]byte{1}, id...)) {
+						found = true
+					}
+				}
+			}
+			if !found {
+				return issStepSuffix(fail("pset.history.orphan-issuance-output", "no-input-derives-its-asset"), k)
+			}
+		}
+	}
+	return "OK"
+}
+
+func issV2InDump(in *psetv2.Input) string {
+	if in.IssuanceAssetEntropy == nil {
+		return "0"
+	}
+	bl := "n"
+	if in.BlindedIssuance != nil {
+		bl = b2s(*in.BlindedIssuance)
+	}
+	return fmt.Sprintf("%d/%s/%d/%s/%s/%s/%s", in.IssuanceValue, issOptTok(in.IssuanceValueCommitment), in.IssuanceInflationKeys,
+		issOptTok(in.IssuanceInflationKeysCommitment), issOptTok(in.IssuanceBlindingNonce), issOptTok(in.IssuanceAssetEntropy), bl)
+}
+
+func checkC13IssH2(t *Toks) string {
+	p, steps := readV2History(t)
+	var paid []int
+	for k, c := range steps {
+		beforeIss := make([]string, len(p.Inputs))
+		for i := range p.Inputs {
+			beforeIss[i] = issV2InDump(&p.Inputs[i])
+		}
+		nout := len(p.Outputs)
+		r := issV2StepCheck(c)
+		if strings.HasPrefix(r, "FAIL") {
+			return issStepSuffix(r, k)
+		}
+		if strings.HasPrefix(r, "SKIP") {
+			return r
+		}
+		for i := range beforeIss {
+			if beforeIss[i] != "0" && (i >= len(p.Inputs) || issV2InDump(&p.Inputs[i]) != beforeIss[i]) {
+				return issStepSuffix(fail("psetv2.history.issuance-overwritten", "by-"+c.op), k)
+			}
+		}
+		if r == "OK" {
+			for j := nout; j < len(p.Outputs); j++ {
+				paid = append(paid, j)
+			}
+		} else if len(p.Outputs) != nout {
+			return issStepSuffix(fail("psetv2.history.outputs-changed-by-refused-call", "by-"+c.op), k)
+		}
+		for _, j := range paid {
+			if j >= len(p.Outputs) {
+				return issStepSuffix(fail("psetv2.history.output-removed", "by-"+c.op), k)
+			}
+			found := false
+			for i := range p.Inputs {
+				in := &p.Inputs[i]
+				if in.IssuanceAssetEntropy == nil {
+					continue
+				}
+				for _, id := range issDerivedIDs(in.PreviousTxid, in.PreviousTxIndex, in.IssuanceBlindingNonce, in.IssuanceAssetEntropy) {
+					if bytes.Equal(p.Outputs[j].Asset, id) {
+						found = true
+					}
+				}
+			}
+			if !found {
+				return issStepSuffix(fail("psetv2.history.orphan-issuance-output", "no-input-derives-its-asset"), k)
+			}
+		}
+	}
+	return "OK"
+}
+
 func init() {
+	checks["C13/issh0"] = checkC13IssH0
+	checks["C13/issh2"] = checkC13IssH2
 	checks["C13/issid"] = checkC13IssID
 	checks["C13/issmid"] = checkC13IssMid
 	checks["C13/isscon"] = checkC13IssCon
